@@ -254,6 +254,8 @@ type backend struct {
 	lmtpSess, authSess bool
 	mechs              []string
 	dataStarted        chan struct{}
+	lastConn           atomic.Pointer[smtp.Conn]
+	logoutDelayMs      atomic.Int64 // sched probe: Logout takes this long (so that overlapping Close calls really overlap)
 }
 
 func (b *backend) pop(kind string) string {
@@ -282,6 +284,7 @@ type session struct {
 
 func (b *backend) NewSession(c *smtp.Conn) (smtp.Session, error) {
 	r := b.popRes("NS")
+	b.lastConn.Store(c)
 	b.mu.Lock()
 	id := b.nsess
 	b.nsess++
@@ -338,6 +341,9 @@ func rcptOpts(o *smtp.RcptOptions) string {
 func (s *session) Reset() { s.b.log.add(fmt.Sprintf("RS:%d", s.id)) }
 func (s *session) Logout() error {
 	s.b.log.add(fmt.Sprintf("LO:%d", s.id))
+	if d := s.b.logoutDelayMs.Load(); d > 0 {
+		time.Sleep(time.Duration(d) * time.Millisecond)
+	}
 	return nil
 }
 func (s *session) Mail(from string, opts *smtp.MailOptions) error {
